@@ -791,7 +791,7 @@ func gen(r *vlib.R, n int, tier string, emit func(string)) {
 			// (histories below are not steered to fresh entry-limiter buckets: erl = 0 only)
 			if strings.Contains(cfgLine, "ratelimit") && erlOf(cfgLine) == 0 && r.Chance(1, 3) {
 				emit(genSeq(r, &k))
-			} else if strings.Contains(cfgLine, "rfc8198=1") && r.Chance(1, 12) {
+			} else if strings.Contains(cfgLine, "rfc8198=1") && erlOf(cfgLine) == 0 && r.Chance(1, 12) {
 				// aggressive denial: a cached NSEC3 proof covers the name; with starve=1 the first
 				// resolution ran while the crypto budget was exhausted and failed (RFC 9520 state
 				// recorded over an NSEC3 zone), the budget is back for the compared serves
